@@ -365,7 +365,7 @@ def track(S, oV, oF, fo, vo, want_src, opt, sigp):
             raise Violation(sigp + "|triangle_not_in_source", f"output face {j} with corners {oT[j].tolist()} matches no source face")
         # ---- stage 2: per-face data
         c2 = c1
-        for name, arr in fo.items():
+        for name, arr in sorted(fo.items(), key=lambda kv: (kv[0] in opt.suffix, kv[0])):  # data of a visual that changed kind last
             look = S.flook.get(name, {})
             hit = look.get(_b(arr[j]))
             if name == "face_normals":
@@ -375,7 +375,8 @@ def track(S, oV, oF, fo, vo, want_src, opt, sigp):
                     # not a cached source value: must then be a correct recomputation
                     if hgt is not None and np.isfinite(hgt[j]) and hgt[j] >= 1e-3 * S.scale:
                         d = min(np.abs(arr[j] - own[j]).max(), np.abs(arr[j] + own[j]).max() if opt.normal_sign else np.inf)
-                        check(d <= 1e-9, sigp + "|face_normals|wrong_value", f"face normal {arr[j].tolist()} of output face {j} is neither the cached normal of its source face nor the normal {own[j].tolist()} of its corners")
+                        # a normal kept through a merge is that of the unmerged corners: each moved by <= tol
+                        check(d <= 1e-9 + 4 * opt.tol / hgt[j], sigp + "|face_normals|wrong_value", f"face normal {arr[j].tolist()} of output face {j} is neither the cached normal of its source face nor the normal {own[j].tolist()} of its corners")
                     continue
             if hit is None:
                 raise Violation(_dsig(sigp, name, "foreign_value", opt), f"{name}[{j}] = {np.asarray(arr[j]).tolist()} does not occur in the source")
